@@ -446,7 +446,13 @@ def rule_validator_model(chk):
             e1 = EM.mock(name='EqF', dest='fluid', sources=['fluid', 'solid'], no_source=False)
             e2 = EM.mock(name='EqS', dest='solid', sources=['fluid'], no_source=False)
             return [EM.mock(has_subgroups=True, equations=[EM.mock(has_subgroups=False, equations=[e1]), EM.mock(has_subgroups=False, equations=[e2])])]
+        def same_class_twice():
+            # two instances of one equation class (the name of an equation is its class name): the first is incomplete, the one listed after it complete
+            e1 = EM.mock(name='EqX', dest='solid', sources=['fluid'], no_source=False)
+            e2 = EM.mock(name='EqX', dest='fluid', sources=['fluid'], no_source=False)
+            return [EM.mock(has_subgroups=False, equations=[e1]), EM.mock(has_subgroups=False, equations=[e2])]
         ccases = [('plain-complete', plain, ['au', 'm', 'x'], ['au', 'm', 'y'], 'ok', ()),
+                  ('incomplete-instance-followed-by-a-complete-one-of-the-same-class', same_class_twice, ['au', 'm', 'x'], ['m', 'y', 'z'], 'raised', ('EqX', 'solid', 'au')),
                   ('plain-second-array-lacks-what-the-first-has', plain, ['au', 'm', 'x'], ['m', 'y', 'z'], 'raised', ('EqS', 'solid', 'au')),
                   ('sub-groups-are-validated', nested, ['au', 'm', 'x'], ['m', 'y', 'z'], 'raised', ('EqS', 'solid', 'au')),
                   ('source-array-lacks-source-name', plain, ['au', 'm', 'x'], ['au', 'y', 'z'], 'raised', ('EqF', 'solid', 'm'))]
@@ -590,7 +596,7 @@ def rule_stepper_check_scope(chk):
         def rec(interp, args, kwargs, node, env):
             names = args[1] if len(args) > 1 else kwargs.get('args')
             calls.append((args[0], frozenset(names) if isinstance(names, (set, frozenset, list, tuple)) else names))
-            return None
+            return frozenset()          # "nothing missing", should the caller look at what the validator returns
         st_a = EM.mock(stage1=EM.func('def stage1(self, d_idx, d_x, d_u, dt):\n    pass'))
         st_b = EM.mock(stage1=EM.func('def stage1(self, d_idx, d_y, d_fx, dt):\n    pass'))
         st_c = EM.mock(stage1=EM.func('def stage1(self, d_idx, d_x, d_rho, s_m, dt):\n    pass'))
@@ -652,6 +658,81 @@ def rule_stepper_check_scope(chk):
         chk.undecided('stepper-arrays-validated-before-emission', 'each-array-against-its-own-stepper', node=fn, file=IHF, func='get_array_declarations', detail='not interpretable: %s' % e)
 
 
+def rule_codegen_rejects_model(chk):
+    """IntegratorCythonHelper.get_code interpreted (E8) end to end on a model problem, the Mako template replaced by a model that makes the calls the template makes (the
+    wrapper names, then the declarations and the pointer set-up of every wrapped method, in order): a problem whose array lacks a property that only ONE of the wrapped stepper
+    methods reads - the first one, a middle one, the last one - must make code generation raise, naming the property; the complete problem must generate code"""
+    from verif_static import emit as EM, absint as AI
+    IHF = 'pysph/sph/integrator_cython_helper.py'
+    fn = M.find_method(M.py(IHF), 'IntegratorCythonHelper', 'get_code')
+    saved = dict((k, AI.EXTERNAL_CALLS.get(k)) for k in ('mako.template.Template', 'os.path.join', 'os.path.dirname'))
+
+    def template(i, a, k, n, e):
+        def render(i2, a2, k2, n2, e2):
+            h = k2.get('helper', a2[0] if a2 else None)
+            out = []
+            names = EM.call(i2, h, 'get_stepper_method_wrapper_names')
+            for m_ in names:
+                out.append(EM.call(i2, h, 'get_array_declarations', m_))
+                for d_ in sorted(h.attrs['object'].attrs['steppers']):
+                    if EM.call(i2, h, 'has_stepper_loop', d_, m_) if i2.find_method(h.attrs['__class__'], 'has_stepper_loop') is not None else True:
+                        out.append(EM.call(i2, h, 'get_array_setup', d_, m_))
+            return '\n'.join(str(x) for x in out)
+        return EM.mock(render=render)
+    AI.EXTERNAL_CALLS['mako.template.Template'] = template
+    AI.EXTERNAL_CALLS['os.path.join'] = lambda i, a, k, n, e: '/'.join(str(x) for x in a)
+    AI.EXTERNAL_CALLS['os.path.dirname'] = lambda i, a, k, n, e: 'dir'
+    bad, und, nrun = None, None, 0
+    try:
+        SIGS = {'initialize': ['d_x', 'd_x0'], 'stage1': ['d_x', 'd_u', 'd_au'], 'stage2': ['d_x', 'd_u', 'd_x0']}
+        for lacking, only_in in ((None, None), ('au', 'stage1'), ('x0', None), ('u', None)) + tuple(('only_' + m_, m_) for m_ in ('initialize', 'stage1', 'stage2')):
+            it = EM.interpreter()
+            sigs = dict((m_, list(v_)) for m_, v_ in SIGS.items())
+            props = set(['x', 'u', 'au', 'x0'])
+            if lacking is not None and lacking.startswith('only_'):
+                sigs[only_in].append('d_' + lacking)          # a property read by this one method only, which the array does not have
+            elif lacking is not None:
+                props.discard(lacking)
+            st = EM.mock(**dict((m_, EM.func('def %s(self, d_idx, %s, dt):\n    pass' % (m_, ', '.join(v_)))) for m_, v_ in sigs.items()))
+            st2 = EM.mock(stage1=EM.func('def stage1(self, d_idx, d_x, dt):\n    pass'))
+            integ = EM.mock(steppers={'fluid': st, 'solid': st2}, one_timestep=EM.func('def one_timestep(self, t, dt):\n    self.initialize()\n    self.stage1()\n    self.stage2()\n'))
+            names_ = set(a_ for v_ in sigs.values() for a_ in v_) | set(['d_x'])
+            aeh = EM.mock(known_types=dict((k_, EM.mock(type='double*')) for k_ in names_),
+                          object=EM.mock(particle_arrays=[EM.mock(name='fluid', properties=dict((p_, None) for p_ in props), constants={}), EM.mock(name='solid', properties={'x': None}, constants={})]))
+            h = EM.instance(it, IHF, 'IntegratorCythonHelper')
+            raised = None
+            try:
+                EM.call(it, h, '__init__', integ, aeh)
+                EM.call(it, h, 'get_code')
+            except AI.Unsupported as ex:
+                if getattr(ex, 'raised', None) is None:
+                    und = 'case %s: %s' % (lacking, ex)
+                    break
+                raised = str(ex) + ' ' + ' '.join(str(x) for x in (getattr(ex.raised, 'args_values', None) or []))
+            except AI.Raised as ex:
+                raised = str(ex) + ' ' + ' '.join(str(x) for x in (getattr(ex, 'args_values', None) or []))
+            nrun += 1
+            missing_name = None if lacking is None else lacking
+            if lacking is None and raised is not None:
+                bad = bad or 'the complete problem is rejected: %s' % raised[:200]
+            elif lacking is not None and raised is None:
+                bad = bad or ('the array lacks `%s`, which %s reads: code is generated without complaint' % (missing_name, only_in or 'a stepper method'))
+            elif lacking is not None and missing_name not in raised:
+                bad = bad or ('the array lacks `%s`: the error raised does not name it (%s)' % (missing_name, raised[:160]))
+    finally:
+        for k, v in saved.items():
+            if v is None:
+                AI.EXTERNAL_CALLS.pop(k, None)
+            else:
+                AI.EXTERNAL_CALLS[k] = v
+    if und:
+        chk.undecided('stepper-arrays-validated-before-emission', 'code-generation-rejects:model-run', node=fn, file=IHF, func='get_code', detail='not interpretable on the model: ' + und)
+    else:
+        chk.decide(bad is None, 'stepper-arrays-validated-before-emission', 'code-generation-rejects:model-run', node=fn, file=IHF, func='get_code',
+                   detail_bad='model stepper initialize(d_x, d_x0) / stage1(d_x, d_u, d_au) / stage2(d_x, d_u, d_x0) on an array with x, u, au, x0: %s' % bad,
+                   detail_ok='%d model problems: the complete one generates code, each incomplete one raises naming the property - also when only the first / a middle / the last wrapped method reads it' % nrun)
+
+
 def main(chk):
     chk.explanation = ('Static rules over the validator and the code generator: the set of array names for which '
                        'pointer set-up is emitted must be covered by the set validated at construction time '
@@ -665,6 +746,7 @@ def main(chk):
     rule_message(chk)
     rule_steppers(chk)
     rule_stepper_check_scope(chk)
+    rule_codegen_rejects_model(chk)
     rule_ordering(chk)
     chk.unit('files', [AE, EQ, IH, AH, SC, ITPL, 'pysph/tools/sph_evaluator.py', 'pysph/tools/interpolator.py'])
     chk.floor('obligations', len(chk.obs), 20)
